@@ -303,16 +303,16 @@ fn main() {
             skel[3] = 9;
             skel[4..12].copy_from_slice(&[0, 1, 0, 0, 0, 0, 0, 0]);
             match r {
-                Err(_) => { w.event(json!({"ev": "s_error", "res": "panic", "pre": json_bytes(&skel), "now": now_s, "wire": [], "digest": [], "full": []})); continue; }
-                Ok(Err(_)) => { w.event(json!({"ev": "s_error", "res": "PushError", "pre": json_bytes(&skel), "now": now_s, "wire": [], "digest": [], "full": []})); continue; }
+                Err(_) => { w.event(json!({"ev": "s_error", "res": "panic", "pre": json_bytes(&skel), "now": now_s, "wire": [], "digest": [], "full": [], "rtime": 0, "rfudge": 0})); continue; }
+                Ok(Err(_)) => { w.event(json!({"ev": "s_error", "res": "PushError", "pre": json_bytes(&skel), "now": now_s, "wire": [], "digest": [], "full": [], "rtime": 0, "rfudge": 0})); continue; }
                 Ok(Ok(out)) => {
                     if out.len() == skel.len() {
                         // no TSIG mirrored: the one of the request could not be located
-                        w.event(json!({"ev": "s_error", "res": "NoPanic", "pre": json_bytes(&skel), "now": now_s, "wire": json_bytes(&out), "digest": [], "full": []}));
+                        w.event(json!({"ev": "s_error", "res": "NoPanic", "pre": json_bytes(&skel), "now": now_s, "wire": json_bytes(&out), "digest": [], "full": [], "rtime": 0, "rfudge": 0}));
                         continue;
                     }
                     let mut efl = match Flight::from_signed(&out, skel.len()) { Some(f) => f, None => {
-                        w.event(json!({"ev": "s_error", "res": "Unparseable", "pre": json_bytes(&skel), "now": now_s, "wire": json_bytes(&out), "digest": [], "full": []})); continue; } };
+                        w.event(json!({"ev": "s_error", "res": "Unparseable", "pre": json_bytes(&skel), "now": now_s, "wire": json_bytes(&out), "digest": [], "full": [], "rtime": 0, "rfudge": 0})); continue; } };
                     let rr = efl.tsig_mut().unwrap().clone();
                     let (digest, full) = if res == "BADTIME" {
                         let base = sans(&out, skel.len(), rr.oid);
@@ -323,7 +323,7 @@ fn main() {
                         (d, f)
                     } else { (vec![], vec![]) };
                     w.event(json!({"ev": "s_error", "res": "Ok", "pre": json_bytes(&skel), "now": now_s, "wire": json_bytes(&out),
-                                   "digest": json_bytes(&digest), "full": json_bytes(&full)}));
+                                   "digest": json_bytes(&digest), "full": json_bytes(&full), "rtime": rr.time, "rfudge": rr.fudge}));
                     w.event(efl.net_event());
                     let mut m = Message::from_octets(out.clone()).unwrap();
                     let r = match &mut cli { C::T(c) => c.answer(&mut m, Time48::from_u64(now_c2)), C::S(c) => c.answer(&mut m, Time48::from_u64(now_c2)) };
